@@ -1,0 +1,19 @@
+// Copyright 2019 The Scriggo Authors. All rights reserved.
+// Use of this source code is governed by a BSD-style
+// license that can be found in the LICENSE file.
+
+//go:build !verif
+
+package runtime
+
+// Verification hooks are disabled: every call site is guarded by this false
+// constant and is removed by the compiler. See verif_on.go.
+const verifEnabled = false
+
+func verifStep(vm *VM)                           {}
+func verifBegin(vm *VM)                          {}
+func verifEnd(vm *VM)                            {}
+func verifSpawn(vm, child *VM)                   {}
+func verifWatcher(vm *VM)                        {}
+func verifAfterSelect(vm *VM)                    {}
+func verifCallNative(vm *VM, fn *NativeFunction) {}
